@@ -33,8 +33,8 @@ func c10Alphabet(tier string) []*explore.Action {
 	a := []*explore.Action{
 		scen.Msg("CreateClass(D,fee=20)", &basetypes.MsgCreateClass{Admin: scen.D.String(), Issuers: []string{scen.D.String()}, Metadata: "m", CreditTypeAbbrev: "C", Fee: &sdk.Coin{Denom: "uregen", Amount: sdk.NewInt(20)}}),
 		scen.SendN(scen.B, scen.C, scen.SC(scen.B1, "1.5", "0.25"), scen.SC(scen.B2, "1", "0")),
-		scen.Send(scen.B, scen.C, scen.B1, "1000", "0"), // fails: overdraw
-		scen.Put(scen.B, scen.NCT, scen.BC(scen.B1, "1"), scen.BC(scen.B2, "0.5")),
+		scen.Send(scen.B, scen.C, scen.B1, "1000", "0"),                            // fails: overdraw
+		scen.Put(scen.B, scen.KYR, scen.BC(scen.B1, "1"), scen.BC(scen.B2, "0.5")), // b2 starts exactly on the basket's year boundary
 		scen.Sell(scen.B, scen.B1, "0.5", sdk.NewInt64Coin("uregen", 5), true, &e10),
 		buy,
 		scen.Msg("basket.Create(A,[C01,C02,C09,C08])!", &baskettypes.MsgCreate{Curator: scen.A.String(), Name: "MULTI", DisableAutoRetire: true, CreditTypeAbbrev: "C",
@@ -48,7 +48,6 @@ func c10Alphabet(tier string) []*explore.Action {
 			scen.CreateBatch(scen.A, "C01-001", time.Date(2022, 1, 1, 0, 0, 0, 0, time.UTC), time.Date(2023, 1, 1, 0, 0, 0, 0, time.UTC), true, nil, scen.Iss(scen.B, "2", "1")),
 			scen.Msg("Anchor(B,R1)", &data.MsgAnchor{Sender: scen.B.String(), ContentHash: scen.RawHash(1)}),
 			scen.Msg("Attest(C,G1)", &data.MsgAttest{Attestor: scen.C.String(), ContentHashes: []*data.ContentHash_Graph{scen.GraphHash(1)}}),
-			scen.Retire(scen.C, scen.B1, "1"),
 			scen.Retire(scen.D, scen.B1, "1"), // fails: D holds nothing
 		)
 	}
@@ -91,7 +90,7 @@ func c10TraceSets(tier string) []detc.Trace {
 	alpha := c10Alphabet(tier)
 	s5, s11 := 5*time.Second, 11*time.Second
 	if tier == "thorough" {
-		t := c10Traces(alpha, 2, 2, [][]time.Duration{{s5}, {s5, s11}})
+		t := c10Traces(alpha, 2, 2, [][]time.Duration{{s5}, {s11}})
 		t = append(t, c10Traces(alpha, 3, 1, [][]time.Duration{{s5}, {s5, s11}, {s11}})...)
 		return t
 	}
@@ -111,10 +110,10 @@ type c10Stats struct {
 // c10Shard runs the order/clock dimension for a shard of the traces; it is
 // executed in a shim-built binary, sequentially (the shim hooks are global).
 type c10ShimResult struct {
-	Traces, Runs, Instances, InstancesWithChoice, MaxKeys, OrderVariants, ClockVariants int64
-	Sites                                                                               map[string]int64
-	Findings                                                                            []c10Finding
-	Shim                                                                                bool
+	Traces, Runs, Instances, InstancesWithChoice, MaxKeys, OrderVariants, ClockVariants, ZoneVariants int64
+	Sites                                                                                             map[string]int64
+	Findings                                                                                          []c10Finding
+	Shim                                                                                              bool
 }
 
 func perms(n int) [][]int {
@@ -196,6 +195,21 @@ func C10Shim(tier string, shard, of int, maxDev int) int {
 		res.ClockVariants++
 		if ok, d := detc.Equal(ref, obs); !ok {
 			add("C10/wall-clock-reaches-consensus/"+detc.DiffKind(ref, obs), d, tr, "clock=1")
+		}
+		// process time zone: time.Local is a process-wide setting that differs between validators
+		for _, z := range []struct {
+			name string
+			off  int
+		}{{"UTC-5", -5 * 3600}, {"UTC+9", 9 * 3600}} {
+			old := time.Local
+			time.Local = time.FixedZone(z.name, z.off)
+			obs, _ := env.Run(tr, detc.Variant{})
+			time.Local = old
+			res.Runs++
+			res.ZoneVariants++
+			if ok, d := detc.Equal(ref, obs); !ok {
+				add("C10/process-time-zone-reaches-consensus/"+detc.DiffKind(ref, obs), d, tr, "time.Local="+z.name)
+			}
 		}
 		// 1 deviation
 		type dev struct {
@@ -406,6 +420,7 @@ func init() {
 				shim.InstancesWithChoice += r.InstancesWithChoice
 				shim.OrderVariants += r.OrderVariants
 				shim.ClockVariants += r.ClockVariants
+				shim.ZoneVariants += r.ZoneVariants
 				if r.MaxKeys > shim.MaxKeys {
 					shim.MaxKeys = r.MaxKeys
 				}
@@ -434,14 +449,14 @@ func init() {
 		o.Coverage["traces_validated_note"] = "every trace and variant is an execution of the real application through ABCI; states = distinct per-block AppHashes of the reference runs, transitions = blocks executed"
 		o.Coverage["evaluations"] = st.Runs + shim.Runs
 		o.Coverage["distinct_nontrivial"] = st.Traces
-		o.Coverage["rule"] = "all traces of B blocks with <= M messages each over the alphabet (quick: B=2, M=2, 9 messages; thorough: B=2,M=2 and B=3,M=1 over 14 messages, two block-time gaps); per trace: every non-empty subset of block boundaries as restart points, one repetition, the trace with its failed messages deleted; in the shim build: the second wall-clock instant and every single (thorough: every pair of) deviating map-range instance(s) with all permutations for <= 3 keys, else descending and rotated"
+		o.Coverage["rule"] = "all traces of B blocks with <= M messages each over the alphabet (quick: B=2, M=2, 9 messages; thorough: B=2,M=2 and B=3,M=1 over 13 messages, two block-time gaps in the 3-block traces); per trace: every non-empty subset of block boundaries as restart points, one repetition, the trace with its failed messages deleted; in the shim build: the second wall-clock instant, two other process time zones (time.Local = UTC-5, UTC+9) and every single (thorough: every pair of) deviating map-range instance(s) with all permutations for <= 3 keys, else descending and rotated"
 		o.Coverage["exhaustive"] = exhaustive
 		o.Coverage["samples"] = []interface{}{traces[0].String(), traces[len(traces)/2].String(), traces[len(traces)-1].String()}
 		o.Coverage["traces_total"] = len(traces)
 		o.Coverage["engine_c"] = st
 		o.Coverage["order_clock_dimension"] = map[string]interface{}{"explored": shimRan, "note": shimNote, "traces": shim.Traces, "runs": shim.Runs,
 			"dynamic_map_range_instances": shim.Instances, "instances_with_2+_keys": shim.InstancesWithChoice, "max_keys": shim.MaxKeys,
-			"order_variants": shim.OrderVariants, "clock_variants": shim.ClockVariants, "instances_per_site": shim.Sites, "rewriter_report": readRewriterReport()}
+			"order_variants": shim.OrderVariants, "clock_variants": shim.ClockVariants, "time_zone_variants": shim.ZoneVariants, "instances_per_site": shim.Sites, "rewriter_report": readRewriterReport()}
 		o.Coverage["cross_process_restarts"] = xpStats
 		o.Coverage["repetition_note"] = "the in-process repetition samples the Go runtime's map randomisation and is a cross-check of the rewriter, not the deciding step"
 		var vac []string
